@@ -91,6 +91,26 @@ def model_of(o, names, timeout=30, solvers=("cvc5", "z3")):
     return {req.get(k, k): solve.smt_value_to_py(v) for k, v in vals.items()}
 
 
+def model_terms(o, terms, extra=(), timeout=30, solvers=("z3", "cvc5")):
+    """Values of arbitrary terms (given as (sort, SMT text) pairs) in a counter-model of obligation o, optionally with
+    extra assertions (SMT text) pinning earlier answers.  Returns dict SMT text -> python value, or None."""
+    ts = [tm.T(sort, text) for sort, text in terms]
+    text = o.smt(getvals=ts)
+    if extra:
+        text = text.replace("(check-sat)", "".join(f"(assert {e})\n" for e in extra) + "(check-sat)", 1)
+    r = solve.run_query(text, timeout, solvers)
+    if r.verdict != "sat":
+        return None
+    vals = solve.parse_values(r.output)
+    return {k: solve.smt_value_to_py(v) for k, v in vals.items()}
+
+
+def const_name(o, name):
+    """The declared constant called `name` or `name!k` in obligation o (fresh-name suffixes), or None."""
+    cand = [k for k in o.decls.order if k == name] or [k for k in o.decls.order if k.startswith(name + "!")]
+    return cand[0] if cand else None
+
+
 class FileOb:
     """A lemma given as SMT-LIB text (array encoding).  The assertion after the line `; GOAL` is
     the negated goal; the cover query drops it."""
